@@ -1412,6 +1412,21 @@ async fn exec_conn_ops(ops: &[String], run: &mut Run) {
                             }
                             (Some(p), Some(a)) => {
                                 run.hit("conn-ke-served");
+                                // coverage of the preference-order cases the property is about
+                                let first_a = algorithms.first().map(|x| u16::from(*x));
+                                let known_after: Vec<u16> = algorithms.iter().map(|x| u16::from(*x)).filter(|x| *x == 15 || *x == 17).collect();
+                                if first_a != Some(a) {
+                                    run.hit("conn-ke-alg-not-first-in-list");
+                                    if known_after.iter().any(|x| *x != a) {
+                                        run.hit(if a == 17 { "conn-ke-unknown-first-then-512-before-256" } else { "conn-ke-unknown-first-then-256-before-512" });
+                                    }
+                                }
+                                if protocols.first().map(proto_id) != Some(p) {
+                                    run.hit("conn-ke-proto-not-first-in-list");
+                                }
+                                if accepted.first() != Some(&p) && accepted.len() > 1 && protocols.iter().map(proto_id).any(|x| x == accepted[0]) {
+                                    run.hit("conn-ke-proto-against-server-order");
+                                }
                                 nontrivial = true;
                                 let pn = proto_str(&NextProtocol::from(p));
                                 let an = aead_str(&AeadAlgorithm::from(a));
@@ -1429,7 +1444,9 @@ async fn exec_conn_ops(ops: &[String], run: &mut Run) {
                                     run.oracle_fail("eight_cookies_right_keys", &attrs, &format!(
                                         "{} cookies; not all decode to the keys exported for ({}, {})", seen.cookies.len(), pn, an));
                                 }
-                                key.push_str(&format!("ke{}{}", pn, an));
+                                key.push_str(&format!("ke{}{}:{:?}:{:?}", pn, an,
+                                    protocols.iter().map(proto_id).collect::<Vec<_>>(),
+                                    algorithms.iter().map(|x| u16::from(*x)).collect::<Vec<_>>()));
                             }
                         }
                     }
@@ -1556,6 +1573,47 @@ fn gen_cfg_line(rng: &mut Rng, want_tokens: bool) -> (String, Vec<Vec<u8>>) {
     )
 }
 
+/// a preference list over `supported` (ids the peer may accept): 0-3 unknown ids first, then the supported
+/// ids in a uniformly random order (so every order, incl. the reverse of the server's own preference, occurs),
+/// optionally only some of them, optionally with repeated entries and unknown ids in between / at the end
+fn gen_pref_list(rng: &mut Rng, supported: &[u16], unknown: &[u16]) -> Vec<u16> {
+    let mut body: Vec<u16> = supported.to_vec();
+    for i in (1..body.len()).rev() {
+        let j = rng.usize(0, i);
+        body.swap(i, j);
+    }
+    if rng.chance(1, 6) {
+        let keep = rng.usize(0, body.len());
+        body.truncate(keep);
+    }
+    let lead = match rng.below(10) {
+        0..=2 => 0,
+        3..=5 => 1,
+        6..=7 => 2,
+        _ => 3,
+    };
+    let mut list: Vec<u16> = (0..lead).map(|_| *rng.pick(unknown)).collect();
+    list.extend(body);
+    // repeated entries (of anything already listed)
+    for _ in 0..(match rng.below(6) {
+        0 => 1,
+        1 => 2,
+        _ => 0,
+    }) {
+        if !list.is_empty() {
+            let x = list[rng.usize(0, list.len() - 1)];
+            let at = rng.usize(0, list.len());
+            list.insert(at, x);
+        }
+    }
+    // an unknown id between / after the supported ones
+    if rng.chance(1, 4) {
+        let at = rng.usize(lead.min(list.len()), list.len());
+        list.insert(at, *rng.pick(unknown));
+    }
+    list
+}
+
 /// a pool / key-exchange request as a record list (no end of message)
 fn gen_conn_request(rng: &mut Rng, tokens: &[Vec<u8>], kind: u64, keep_alive: Option<bool>) -> Vec<Vec<u8>> {
     let auth: Vec<u8> = if !tokens.is_empty() && rng.chance(3, 5) {
@@ -1567,20 +1625,30 @@ fn gen_conn_request(rng: &mut Rng, tokens: &[Vec<u8>], kind: u64, keep_alive: Op
     let mut recs = vec![];
     match kind {
         0 => {
-            let np = match rng.below(8) {
-                0 => 0,
-                1..=3 => 1,
-                4..=6 => 2,
-                _ => rng.usize(3, 5),
+            // client preference lists: mostly structured (unknown ids first, the supported ids in every
+            // order incl. the reverse of the server's own preference, repeated entries), sometimes free-form
+            let protos: Vec<u16> = if rng.chance(1, 5) {
+                let np = match rng.below(8) {
+                    0 => 0,
+                    1..=3 => 1,
+                    4..=6 => 2,
+                    _ => rng.usize(3, 5),
+                };
+                (0..np).map(|_| *rng.pick(&[0u16, 0x8001, 0, 0x8001, 0, 0x8001, 1, 0x8002, 15])).collect()
+            } else {
+                gen_pref_list(rng, &[0u16, 0x8001], &[1u16, 2, 0x8000, 0x8002, 15, 0xffff])
             };
-            let protos: Vec<u16> = (0..np).map(|_| *rng.pick(&[0u16, 0x8001, 0, 0x8001, 0, 0x8001, 1, 0x8002, 15])).collect();
-            let na = match rng.below(8) {
-                0 => 0,
-                1..=3 => 1,
-                4..=6 => 2,
-                _ => rng.usize(3, 5),
+            let algs: Vec<u16> = if rng.chance(1, 5) {
+                let na = match rng.below(8) {
+                    0 => 0,
+                    1..=3 => 1,
+                    4..=6 => 2,
+                    _ => rng.usize(3, 5),
+                };
+                (0..na).map(|_| *rng.pick(&[15u16, 17, 15, 17, 15, 17, 16, 0, 0x8001])).collect()
+            } else {
+                gen_pref_list(rng, &[15u16, 17], &[0u16, 1, 14, 16, 18, 30, 0x8001, 0xffff])
             };
-            let algs: Vec<u16> = (0..na).map(|_| *rng.pick(&[15u16, 17, 15, 17, 15, 17, 16, 0, 0x8001])).collect();
             recs.push(rec(0x8001, &u16s(&protos)));
             recs.push(rec(0x8004, &u16s(&algs)));
             if rng.chance(1, 4) {
@@ -1678,9 +1746,15 @@ fn finish_message(rng: &mut Rng, mut recs: Vec<Vec<u8>>, allow_malformed: bool) 
 fn gen_conn_case(rng: &mut Rng, idx: u64, _run: &Run) -> Vec<String> {
     let mut ops = vec![];
     // corpus: the situations the property names, first
-    let scripted = idx < 6;
+    let scripted = idx < 12;
     let (cfg_line, tokens) = if scripted {
-        ("cfg tokens=[6869] versions=v4,v5 server=none port=none".to_string(), vec![b"hi".to_vec()])
+        let versions = match idx {
+            7 | 10 => "v5,v4",
+            9 => "v4",
+            11 => "v5",
+            _ => "v4,v5",
+        };
+        (format!("cfg tokens=[6869] versions={} server=none port=none", versions), vec![b"hi".to_vec()])
     } else {
         {
             let want = rng.chance(3, 4);
@@ -1723,12 +1797,28 @@ fn gen_conn_case(rng: &mut Rng, idx: u64, _run: &Run) -> Vec<String> {
                 ops.push(format!("long fin=0 req={}", mk(sup(b"", false))));
                 ops.push(format!("long fin=0 req={}", mk(ke.clone())));
             }
-            _ => ops.push(format!("conn permit=1 fin=0 req={}", mk(ke.clone()))),
+            5 => ops.push(format!("conn permit=1 fin=0 req={}", mk(ke.clone()))),
+            _ => {
+                // preference-order witnesses: unknown / unaccepted ids first, supported ids in an order that
+                // differs from the server's own, repeated entries
+                let (protos, algs): (Vec<u16>, Vec<u16>) = match idx {
+                    6 => (vec![0x8002, 0, 0x8001], vec![16, 17, 15]),
+                    7 => (vec![1, 0x8001, 0], vec![0, 15, 17]),
+                    8 => (vec![0x8001, 0x8001, 0], vec![16, 16, 17, 17, 15]),
+                    9 => (vec![0x8001, 0], vec![0xffff, 30, 18, 17, 15, 17]),
+                    10 => (vec![2, 1, 0, 0x8001], vec![16, 15, 17]),
+                    _ => (vec![0, 0x8002, 0x8001, 0], vec![1, 17, 16, 15]),
+                };
+                ops.push(format!(
+                    "conn permit=1 fin=0 req={}",
+                    mk(vec![rec(0x8001, &u16s(&protos)), rec(0x8004, &u16s(&algs))])
+                ));
+            }
         }
         ops.push("finish".to_string());
         return ops;
     }
-    let kind = rng.below(3);
+    let kind = if rng.chance(1, 4) { 0 } else { rng.below(3) };
     let recs = gen_conn_request(rng, &tokens, kind, None);
     let (bytes, fin) = finish_message(rng, recs, true);
     let permit = rng.chance(2, 3);
